@@ -67,7 +67,7 @@ class Intercept:
         """
         if isinstance(other, type(self)):
             return Model()
-        elif isinstance(other, NegatedIntercept):
+        elif isinstance(other, (NegatedIntercept, Term, GroupSpecificTerm)):
             return self
         elif isinstance(other, Model):
             if any(isinstance(term, type(self)) for term in other.common_terms):
